@@ -1058,11 +1058,9 @@ XObject::equals(
             const XObject&          theRHS,
             XPathExecutionContext&  executionContext) const
 {
-    if (this == &theRHS)
-    {
-        return true;
-    }
-    else
+    // No shortcut for an object compared with itself: a NaN is not
+    // equal to itself, a number is <= and >= itself, and a node-set
+    // compares by its members (XPath 1.0 section 3.4).
     {
         const eObjectType   theLHSType = getType();
 
@@ -1112,11 +1110,9 @@ XObject::notEquals(
             const XObject&          theRHS,
             XPathExecutionContext&  executionContext) const
 {
-    if (this == &theRHS)
-    {
-        return false;
-    }
-    else
+    // No shortcut for an object compared with itself: a NaN is not
+    // equal to itself, a number is <= and >= itself, and a node-set
+    // compares by its members (XPath 1.0 section 3.4).
     {
         const eObjectType   theLHSType = getType();
 
@@ -1166,11 +1162,9 @@ XObject::lessThan(
             const XObject&          theRHS,
             XPathExecutionContext&  executionContext) const
 {
-    if (this == &theRHS)
-    {
-        return false;
-    }
-    else
+    // No shortcut for an object compared with itself: a NaN is not
+    // equal to itself, a number is <= and >= itself, and a node-set
+    // compares by its members (XPath 1.0 section 3.4).
     {
         const eObjectType   theLHSType = getType();
 
@@ -1200,11 +1194,9 @@ XObject::lessThanOrEquals(
             const XObject&          theRHS,
             XPathExecutionContext&  executionContext) const
 {
-    if (this == &theRHS)
-    {
-        return false;
-    }
-    else
+    // No shortcut for an object compared with itself: a NaN is not
+    // equal to itself, a number is <= and >= itself, and a node-set
+    // compares by its members (XPath 1.0 section 3.4).
     {
         const eObjectType   theLHSType = getType();
 
@@ -1234,11 +1226,9 @@ XObject::greaterThan(
             const XObject&          theRHS,
             XPathExecutionContext&  executionContext) const
 {
-    if (this == &theRHS)
-    {
-        return false;
-    }
-    else
+    // No shortcut for an object compared with itself: a NaN is not
+    // equal to itself, a number is <= and >= itself, and a node-set
+    // compares by its members (XPath 1.0 section 3.4).
     {
         const eObjectType   theLHSType = getType();
 
@@ -1268,11 +1258,9 @@ XObject::greaterThanOrEquals(
             const XObject&          theRHS,
             XPathExecutionContext&  executionContext) const
 {
-    if (this == &theRHS)
-    {
-        return false;
-    }
-    else
+    // No shortcut for an object compared with itself: a NaN is not
+    // equal to itself, a number is <= and >= itself, and a node-set
+    // compares by its members (XPath 1.0 section 3.4).
     {
         const eObjectType   theLHSType = getType();
 
